@@ -34,6 +34,9 @@ type Job struct {
 	Annot  bool            `json:"annot,omitempty"` // run the const-param annotator like kddp -O2
 	Keep   bool            `json:"keep,omitempty"`  // keep the run directory
 	Source bool            `json:"source,omitempty"`
+	// WarnOnly: the last step differs from the first only by statements that are accepted with a warning ("todo" faults);
+	// if the first call delivers no error the last must not deliver one either (C07: warnings alone never fail a compilation)
+	WarnOnly bool `json:"warn_only,omitempty"`
 }
 
 type Diag struct {
